@@ -3,7 +3,7 @@
     outcome of the price update: deleting all of them from the Votes store leaves it unchanged. *)
 From Coq Require Import ZArith List Bool Arith Lia Permutation.
 Import ListNotations.
-Require Import Nib.Lib.Dec Nib.C10.Model Nib.C10.Spec Nib.C10.ProofsMedian Nib.C10.ProofsUpdate.
+Require Import Nib.Lib.Dec Nib.C10.Model Nib.C10.Spec Nib.C10.ProofsMedian Nib.C10.ProofsUpdate Nib.C10.ProofsPanic.
 Local Open Scope Z_scope.
 Local Arguments Z.mul : simpl never.
 Local Arguments Z.add : simpl never.
@@ -129,9 +129,6 @@ Qed.
 Lemma stddev_posrate l m : stddev (filter posrate l) m = stddev l m.
 Proof. unfold stddev. rewrite sd_fold_posrate. reflexivity. Qed.
 
-Lemma tally_ok_posrate band l m : tally_ok band (filter posrate l) m = tally_ok band l m.
-Proof. unfold tally_ok, reward_spread. rewrite stddev_posrate. reflexivity. Qed.
-
 Lemma passing_posrate st pr thr minv :
   passing (filter posrate (pair_votes st pr)) thr minv = passing (pair_votes st pr) thr minv.
 Proof.
@@ -175,27 +172,35 @@ Qed.
 
 (* ---------------------------------------------------------------- main statement *)
 
+Lemma domain_strip p st h : domain p st h = true -> domain p (strip st) h = true.
+Proof.
+  unfold domain. intro H. apply andb_true_iff in H as [H Hr]. apply andb_true_iff.
+  split; [exact H|]. unfold rates_in_range in *. rewrite forallb_forall in Hr. apply forallb_forall.
+  intros a Ha. unfold strip in Ha. simpl in Ha. apply in_map_iff in Ha as [a0 [E Ha0]]. subst a.
+  apply filter_In in Ha0 as [Ha0 _]. specialize (Hr a0 Ha0). rewrite forallb_forall in Hr.
+  apply forallb_forall. intros t Ht. simpl in Ht. apply filter_In in Ht as [Ht _]. apply Hr. exact Ht.
+Qed.
+
+Lemma wf_strip st : wf st -> wf (strip st).
+Proof. intros H v Hv. apply H. exact Hv. Qed.
+
 Theorem strip_no_influence p st h :
-  wf st -> threshold_ok p (bonded_power st) = true ->
+  wf st -> domain p st h = true ->
   update true p (strip st) h = update true p st h.
 Proof.
-  intros Hw Hr. unfold update. rewrite bonded_power_strip, Hr, !andb_false_r.
-  rewrite valid_pairs_strip. change (rates (strip st)) with (rates st).
+  intros Hw Hd. pose proof (domain_strip p st h Hd) as Hd'.
+  pose proof (threshold_ok_in_domain p st h Hd) as Hr.
+  pose proof (tally_all_ok p st h Hw Hd) as Hok.
+  pose proof (tally_all_ok p (strip st) h (wf_strip st Hw) Hd') as Hok'.
+  unfold update in *. rewrite bonded_power_strip, Hr, !andb_false_r.
+  rewrite valid_pairs_strip in *. change (rates (strip st)) with (rates st).
   assert (Hm : map (fun pr => (pr, wmedian true (pair_votes (strip st) pr))) (valid_pairs p st)
              = map (fun pr => (pr, wmedian true (pair_votes st pr))) (valid_pairs p st)).
   { apply map_ext_in. intros pr Hv. f_equal. apply valid_pairs_iff in Hv as [Hwl [Hz _]].
     rewrite pair_votes_strip. apply memb_iff in Hwl. rewrite Hwl.
     pose proof (pair_votes_nonneg st pr Hw) as Hn. pose proof (tp_nonneg _ Hn).
     apply wmedian_filter_zero; [exact Hn | lia | apply abstain_zero]. }
-  rewrite Hm.
-  assert (Hf : forallb (fun pm => tally_ok (p_reward_band p) (pair_votes (strip st) (fst pm)) (snd pm))
-                       (map (fun pr => (pr, wmedian true (pair_votes st pr))) (valid_pairs p st))
-             = forallb (fun pm => tally_ok (p_reward_band p) (pair_votes st (fst pm)) (snd pm))
-                       (map (fun pr => (pr, wmedian true (pair_votes st pr))) (valid_pairs p st))).
-  { apply forallb_ext_in. intros [pr m] Hin. simpl. apply in_map_iff in Hin as [pr' [E Hv]]. injection E as -> _.
-    apply valid_pairs_iff in Hv as [Hwl _]. rewrite pair_votes_strip. apply memb_iff in Hwl. rewrite Hwl.
-    apply tally_ok_posrate. }
-  rewrite Hf. reflexivity.
+  rewrite Hm in *. rewrite Hok, Hok'. reflexivity.
 Qed.
 
 (** two Votes stores that agree on the relevant votes produce the same outcome *)
@@ -205,15 +210,14 @@ Theorem irrelevant_votes_no_influence p st1 st2 h :
   bonded_tokens st2 = bonded_tokens st1 -> power_reduction st2 = power_reduction st1 ->
   whitelist st2 = whitelist st1 -> rates st2 = rates st1 ->
   votes (strip st2) = votes (strip st1) ->
-  threshold_ok p (bonded_power st1) = true ->
+  domain p st1 h = true -> domain p st2 h = true ->
   end_block true p st2 h = end_block true p st1 h.
 Proof.
-  intros Hw Ev Em Eb Ep Ewl Er Es Hr.
+  intros Hw Ev Em Eb Ep Ewl Er Es Hd1 Hd2.
   assert (Hw2 : wf st2) by (unfold wf; rewrite Ev; exact Hw).
-  assert (Hb : bonded_power st2 = bonded_power st1) by (unfold bonded_power; rewrite Eb, Ep; reflexivity).
   unfold end_block. rewrite Er. destruct (is_period_last h (p_vote_period p)); [|reflexivity].
-  rewrite <- (strip_no_influence p st1 h Hw Hr).
-  rewrite <- (strip_no_influence p st2 h Hw2) by (rewrite Hb; exact Hr).
+  rewrite <- (strip_no_influence p st1 h Hw Hd1).
+  rewrite <- (strip_no_influence p st2 h Hw2 Hd2).
   assert (E : strip st2 = strip st1).
   { unfold strip in *. simpl in Es. rewrite Es, Ev, Em, Eb, Ep, Ewl, Er. reflexivity. }
   rewrite E. reflexivity.
